@@ -546,3 +546,152 @@ def rtc_prefix_region(failure):
     regardless).  Only that shape."""
     i = failure.get('input', {})
     return i.get('family') == '1/132' and i.get('shape', '').startswith('RTC prefix of ') and 32 <= int(i['shape'].split()[3]) <= 95
+
+
+# ---------------------------------------------------------------------------------------------------------------------
+# objects BUILT by the text parser (the first half of the property: "decoding what ExaBGP encoded gives an equal object"):
+# one valid command per registered announce family and NLRI type, plus attribute keywords, through the real API entry
+# points; and an account of which registered families / attribute codes neither the corpus nor these commands exercise
+TEXT_EXTRA = [
+    'announce route 10.0.0.0/24 next-hop 192.0.2.1 aigp 5 atomic-aggregate originator-id 1.2.3.4 cluster-list [ 1.2.3.4 5.6.7.8 ] aggregator ( 65000:1.2.3.4 )',
+    'announce route 10.0.0.0/24 next-hop 192.0.2.1 community [ 65000:1 no-export ] large-community [ 1:2:3 4294967295:0:1 ] extended-community [ target:65000:1 origin:1.2.3.4:5 ]',
+    'announce route 10.0.0.0/24 next-hop 192.0.2.1 as-path [ 65000 4200000001 ] local-preference 7 med 9 origin egp',
+    'announce route 10.0.0.0/24 next-hop 192.0.2.1 bgp-prefix-sid [ 300, [ ( 800000,4096 ) ] ] attribute [ 0x99 0xe0 0x0102 ]',  # 0xe0: an unrecognised optional transitive attribute comes back with the Partial bit (RFC 4271 9)
+    'announce route 2001:db8::/32 next-hop 2001:db8::1 bgp-prefix-sid-srv6 ( l3-service 2001:db8:1:1:: 0x48 [ 64,24,16,0,0,0 ] )',
+    'announce ipv6 multicast ff0e::/64 next-hop 2001:db8::1',
+    'announce ipv6 sr-policy distinguisher 1 color 200 endpoint 2001:db8::9 next-hop 2001:db8::1 preference 100 segment-list weight 1 segment type-b srv6 fc00::1',
+    'announce flow route { rd 65000:1; match { source 2001:db8::/32; next-header =tcp; } then { discard; } }',
+    'announce ipv6 flow source-ipv6 2001:db8::/32 next-header =tcp destination-port =80 discard',
+    'announce flow route { rd 65000:1; match { destination 10.0.0.0/24; port [ >1000&<2000 =3000 ]; tcp-flags [ syn ]; } then { redirect 65000:1; } }',
+    'announce flow route { match { source 2001:db8::/32; flow-label =5; fragment [ is-fragment ]; } then { rate-limit 9600; mark 10; } }',
+]
+
+
+def text_built():
+    from exabgp.reactor.api import API
+    from . import c18
+
+    out = []
+    for text in c18.HEADS + TEXT_EXTRA:
+        kind = text.split()[1]
+        body = text.split(' ', 1)[1]
+        api = API(None)
+        try:
+            if kind == 'attributes':
+                routes = api.api_attributes(body, [], 'announce')
+            else:
+                routes = getattr(api, c18.DIRECT[kind])(body, 'announce')
+        except Exception as e:  # noqa
+            routes = []
+        for r in routes or []:
+            out.append((text, r))
+    return out
+
+
+def registry_account(nlris, attr_codes):
+    """(registered NLRI families never exercised, registered attribute codes never exercised)"""
+    from exabgp.bgp.message.update.attribute import Attribute
+    from exabgp.bgp.message.update.nlri.nlri import NLRI
+
+    reg_f = sorted(NLRI.registered_nlri)
+    seen_f = {f'{n.afi}/{n.safi}' for n in nlris}
+    reg_a = sorted({int(k[0] if isinstance(k, tuple) else k) for k in Attribute.registered_attributes})
+    return [f for f in reg_f if f not in seen_f], [a for a in reg_a if a not in attr_codes and a not in (14, 15)]
+
+
+@bounded('C15', 'text-built-roundtrip')
+def text_built_roundtrip(tier, seed):
+    fails, evals, seen = [], 0, set()
+    built = text_built()
+    texts = {t for t, _r in built}
+    nlris, codes = [], set()
+    for src, body, data in decoded_updates():
+        nlris += [r.nlri for r in data.announces] + list(data.withdraws)
+        codes |= {int(k) for k in data.attributes}
+    from . import c18
+
+    for text in c18.HEADS + TEXT_EXTRA:
+        evals += 1
+        if text not in texts:
+            fails.append({'what': 'a valid definition of a registered family was not built into a route by the parser', 'input': {'source': text}})
+    for text, r in built:
+        nlris.append(r.nlri)
+        codes |= {int(k) for k in r.attributes if int(k) < 0xFF00}
+        key = (int(r.nlri.afi), int(r.nlri.safi), bytes(r.nlri.index()))
+        if key not in seen:
+            seen.add(key)
+            evals += 1
+            f = nlri_roundtrip(r.nlri, text)
+            if f:
+                fails.append(f)
+        evals += 1
+        f = attribute_roundtrip(r.attributes, text)
+        if f:
+            fails.append(f)
+    miss_f, miss_a = registry_account(nlris, codes)
+    return {'evaluations': evals, 'distinct_nontrivial': evals, 'bound': f'{len(c18.HEADS) + len(TEXT_EXTRA)} valid definitions (one per registered announce family and NLRI type, plus the attribute keywords) built by the real parser, each NLRI and each attribute collection through encode -> decode -> equal / same hash / same index / same bytes again. Registry account over the corpus and these: registered NLRI families never exercised by either: {miss_f or "none"}; registered attribute codes never exercised: {miss_a or "none"} (14 / 15 are rebuilt by the NLRI path)', 'rule': 'one case = one NLRI or one attribute collection or one definition', 'samples': [{'source': c18.HEADS[0]}], 'failures': fails}
+
+
+@bounded('C15', 'generated-shapes-roundtrip')
+def shapes_roundtrip(tier, seed):
+    """the generated UPDATE shapes shared with C03 / C13 (PMSI tunnel types, Prefix-SID TLVs, AGGREGATOR pairs, tunnel
+    encapsulation, BGP-LS TLV sizes, IEEE floats ...): whatever decodes goes through the same two round trips"""
+    from exabgp.bgp.message import Message
+
+    nb, neg = c13.session()
+    fails, evals, decoded, seen = [], 0, 0, set()
+    for body, what in c13.update_shapes():
+        try:
+            m = Message.unpack(2, memoryview(body), neg)
+            data = m.data
+        except Exception:  # noqa
+            continue  # refused shapes are C03's and C08's business
+        if getattr(m, 'IS_EOR', False):
+            continue
+        decoded += 1
+        for n in [r.nlri for r in data.announces] + list(data.withdraws):
+            key = (int(n.afi), int(n.safi), bytes(n.index()))
+            if key in seen:
+                continue
+            seen.add(key)
+            evals += 1
+            f = nlri_roundtrip(n, what)
+            if f:
+                fails.append(f)
+        if any(int(k) >= 0xFF00 for k in data.attributes):
+            continue  # carries a discard / treat-as-withdraw marker: not a value to round-trip
+        evals += 1
+        f = attribute_roundtrip(data.attributes, what)
+        if f:
+            f['input']['body'] = bytes(body).hex()[:600]
+            fails.append(f)
+    return {'evaluations': evals, 'distinct_nontrivial': evals, 'bound': f'the {decoded} generated UPDATE shapes of bounded/c13.update_shapes() which decode on the all-families session without an RFC 7606 marker: every NLRI and every attribute collection through encode -> decode -> equal, same bytes again', 'rule': 'one case = one NLRI or one attribute collection', 'samples': [{'shape': 'PMSI ingress replication, 4 octet identifier'}], 'failures': fails}
+
+
+@replayer('C15', 'generated-shapes-roundtrip')
+def _replay_shapes(f):
+    from exabgp.bgp.message import Message
+
+    nb, neg = c13.session()
+    for body, what in c13.update_shapes():
+        if what != f['input']['source']:
+            continue
+        try:
+            data = Message.unpack(2, memoryview(body), neg).data
+        except Exception:  # noqa
+            continue
+        for n in [r.nlri for r in data.announces] + list(data.withdraws):
+            if nlri_roundtrip(n, what) is not None:
+                return False
+        if not any(int(k) >= 0xFF00 for k in data.attributes) and attribute_roundtrip(data.attributes, what) is not None:
+            return False
+    return True
+
+
+@replayer('C15', 'text-built-roundtrip')
+def _replay_text(f):
+    src = f['input']['source']
+    for text, r in text_built():
+        if text == src and (nlri_roundtrip(r.nlri, text) is not None or attribute_roundtrip(r.attributes, text) is not None):
+            return False
+    return src in {t for t, _r in text_built()}
